@@ -278,8 +278,9 @@ class GateMonitor(Monitor):
     """Every path to an accept point must have taken an edge establishing `pred` (pattern, want)
     since the last redefinition of a kill variable."""
 
-    def __init__(self, accept_pts, pred, want=None, kill_ids=(), est_elem=None):
+    def __init__(self, accept_pts, pred, want=None, kill_ids=(), est_elem=None, accept_edge=None):
         self.accept = set(accept_pts)
+        self.accept_edge = accept_edge
         # pred: a pattern with `want`, or a list of alternatives [(pattern, want), ...]
         if pred is None:
             self.alts = []
@@ -316,6 +317,8 @@ class GateMonitor(Monitor):
             for p, w in self.alts:
                 if s.m.cond_matches(p, w, cond, truth):
                     return True
+        if self.accept_edge is not None and not m and self.accept_edge(bid, edge):
+            return Viol("accept edge %s taken without %s being %s" % (edge.label_str(), self.pred_str(), self.want), (bid, len(s.fn.blocks[bid].elems) - 1))
         return m
 
 
